@@ -22,8 +22,8 @@ KIND = {'TokSpace': 'KSpace', 'TokNewline': 'KNewline', 'TokComment': 'KComment'
 
 # pattern source -> matcher id.  The scanners of Model/Lexer.v are written for exactly these sources.
 PINS = {
-    br'--.*': 'MCommentDash',
-    br'//.*': 'MCommentSlash',
+    br'--[^\r\n]*': 'MCommentDash',
+    br'//[^\r\n]*': 'MCommentSlash',
     br'[ \t]+': 'MSpace',
     br'\r\n': 'MNlCrLf',
     br'\n': 'MNlLf',
@@ -38,6 +38,9 @@ PINS = {
     br'[a-zA-Z_\x80-\xff][a-zA-Z0-9_\x80-\xff]*': 'MName',
     br'\?': 'MQmark',
 }
+
+
+KW_TAIL = br'(?![a-zA-Z0-9_\x80-\xff])'
 
 
 def zl(bs):
@@ -87,9 +90,11 @@ def lexer_extra(mod, tree, src):
             rows.append('(%s, %s)' % (PINS[ps], kind))
             sources.append(ps)
             continue
-        if ps.startswith(br'\b') and ps.endswith(br'\b') and ps[2:-2] in mod.LUA_KEYWORDS and kind == 'KKeyword':
-            rows.append('(MKeyword %s, %s)' % (zl(ps[2:-2]), kind))
-            kw_order.append(ps[2:-2])
+        # \b<keyword>(?!<name byte>)  -  the scanner scan_keyword of Model/Lexer.v is written for this shape
+        if ps.startswith(br'\b') and ps.endswith(KW_TAIL) and ps[2:-len(KW_TAIL)] in mod.LUA_KEYWORDS \
+                and kind == 'KKeyword':
+            rows.append('(MKeyword %s, %s)' % (zl(ps[2:-len(KW_TAIL)]), kind))
+            kw_order.append(ps[2:-len(KW_TAIL)])
             continue
         lit = pure_literal(ps)
         if lit and kind == 'KSymbol':
